@@ -5,10 +5,11 @@ scratch=$(mktemp -d /dev/shm/praatio-seed-XXXXXX)
 trap 'rm -rf "$scratch"' EXIT
 rsync -a --exclude .git --exclude __pycache__ /repo/ "$scratch/"
 cd "$scratch" || exit 2
-PYTHONPATH="$scratch" /venv/bin/python "$dst/demo.py" >/dev/null 2>&1; a=$?
+mkdir -p "$scratch/SEED" && cp "$dst/demo.py" "$scratch/SEED/demo.py"   # demos locate the tree as the parent of SEED/
+PYTHONPATH="$scratch" /venv/bin/python "$scratch/SEED/demo.py" >/dev/null 2>&1; a=$?
 patch -p1 -s < "$dst/patch.diff" || { echo PATCH-FAILED; exit 3; }
 t=$(PYTHONPATH="$scratch" /venv/bin/python -m pytest -q -p no:cacheprovider --timeout=900 2>&1 | tail -1)
-PYTHONPATH="$scratch" /venv/bin/python "$dst/demo.py" >/dev/null 2>&1; b=$?
+PYTHONPATH="$scratch" /venv/bin/python "$scratch/SEED/demo.py" >/dev/null 2>&1; b=$?
 echo "$(basename $dst): tests: $t | demo without change: exit $a | with change: exit $b"
 /venv/bin/python - "$dst" "$t" "$a" "$b" <<'PY'
 import json, sys, os
